@@ -122,7 +122,7 @@ let () =
     let nl = nat_of_int (int_of_string Sys.argv.(3)) in
     let cap = int_of_string Sys.argv.(4) and off = int_of_string Sys.argv.(5) in
     let roots = match Sys.argv.(2) with
-      | "d1" -> enum_d1 | "d2" -> enum_d2 nl | "d3" -> enum_d3 nl | _ -> failwith "set" in
+      | "d1" -> enum_d1 | "d2" -> enum_d2 nl | "d3" -> enum_d3 nl | "ar" -> arity_sweep | _ -> failwith "set" in
     let classes : (string, (string * string * string) list ref * int ref) Hashtbl.t = Hashtbl.create 64 in
     let total = ref 0 and acc = ref 0 and gaps = ref 0 in
     List.iter (fun root ->
